@@ -26,6 +26,11 @@ INT_W = {"u8": 8, "i8": 8, "u16": 16, "i16": 16, "u32": 32, "i32": 32, "u64": 64
 SIGNED = {"i8", "i16", "i32", "i64", "isize", "i128"}
 
 
+# thorough tier: every entailment query (up to CROSS_CHECK_CAP per interpreter) is re-decided by cvc5
+CROSS_CHECK_ALL = False
+CROSS_CHECK_CAP = 1500
+
+
 class MirError(Exception):
     pass
 
@@ -306,6 +311,7 @@ class Interp:
         self.on_event = on_event
         self.max_paths = max_paths
         self.unknown_stmts = []
+        self.cross_check = CROSS_CHECK_ALL
 
     # ---- solver helpers
     def sat(self, pc):
@@ -327,7 +333,7 @@ class Interp:
         self.solver.add(z3.Not(formula))
         r = self.solver.check()
         model = self.solver.model() if r == z3.sat else None
-        smt2 = self.solver.to_smt2() if getattr(self, "cross_check", False) else None
+        smt2 = self.solver.to_smt2() if (getattr(self, "cross_check", False) and getattr(self, "cross_checked", 0) < CROSS_CHECK_CAP) else None
         self.solver.pop()
         if r == z3.unknown:
             raise MirError("solver returned unknown")
